@@ -136,6 +136,9 @@ pub fn run_check(id: &str, tier: &str) -> i32 {
         "C10" => c10(tier, thorough),
         "C15" => c15(tier, thorough),
         "C06" => c06(tier, thorough),
+        "C12" => c12(tier, thorough),
+        "C13" => c13(tier, thorough),
+        "C18" => c18(tier, thorough),
         _ => {
             eprintln!("unknown check {}", id);
             2
@@ -409,6 +412,121 @@ fn c06(tier: &str, thorough: bool) -> i32 {
     ctx.finish(seqs, calls)
 }
 
+fn leak(ctx: Ctx) -> &'static Ctx {
+    Box::leak(Box::new(ctx))
+}
+
+fn c12(tier: &str, thorough: bool) -> i32 {
+    use crate::backend::CallKind;
+    let ctx = leak(Ctx::new("C12", tier, "fault_enumeration", "e4", &["wrongdata"]));
+    crate::watch::start(ctx, std::time::Duration::from_secs(30));
+    ctx.assume("faults are injected at the Read/Seek calls of the backend (FaultFile); a failed call has no effect on the backend");
+    ctx.assume("true stream contents are known from the base-file builder; positions are read back with stream_position(), which performs no I/O");
+    ctx.set_rule("for each read-only workload: fault-free run to learn the N underlying calls, then one run per read/seek call index k with that call failing, then all pairs k1<k2 (k2 ranges over the calls of the k1 run); every failed API call is retried up to 3 times; oracle: Err, or the fault-free value; bytes equal the true content at the position the handle reports; no panic. A case is one (workload, plan); all are distinct");
+    let mut runs = 0u64;
+    let mut calls = 0u64;
+    for v in [3u16, 4] {
+        let base = match crate::e4::readonly_base(v) {
+            Ok(b) => b,
+            Err(e) => {
+                ctx.report(crate::report::Violation { class: "machinery".into(), sig: "robase".into(), msg: e, replay: json!(null) });
+                continue;
+            }
+        };
+        for (name, max_buf, steps) in crate::e4::readonly_workloads() {
+            let case = crate::e4::FaultCase { workload: name.clone(), version: v, max_buf, steps, plan: vec![], kinds: vec![CallKind::Read, CallKind::Seek], read_only: true };
+            // pairs: both faults in the stream-read phase always; including the open phase for V3 in thorough
+            let pairs = if thorough && v == 3 { crate::e4::Pairs::All } else { crate::e4::Pairs::AfterFirstStep };
+            let st = crate::e4::explore(ctx, &case, Some(&base), &[CallKind::Read, CallKind::Seek], pairs);
+            ctx.note(format!("v{} {}: fault positions={} runs={} (pairs={:?}) underlying calls executed={} faults delivered={}", v, name, st.positions, st.runs, pairs, st.calls, st.faults_delivered));
+            runs += st.runs;
+            calls += st.calls;
+            ctx.add("fault_positions", st.positions);
+            ctx.add("faults_delivered", st.faults_delivered);
+        }
+    }
+    ctx.set("evaluations", runs);
+    ctx.set("distinct_nontrivial", runs.saturating_sub(1));
+    ctx.finish(runs, calls)
+}
+
+fn c13(tier: &str, thorough: bool) -> i32 {
+    use crate::backend::CallKind;
+    let ctx = leak(Ctx::new("C13", tier, "fault_enumeration", "e4", &["swallowed", "lost"]));
+    crate::watch::start(ctx, std::time::Duration::from_secs(30));
+    ctx.assume("faults are injected at the Write/Seek/Flush calls of the backend; a failed call has no effect on the backend");
+    ctx.assume("handles are flushed explicitly before being dropped; Drop is not relied on (excluded by the property)");
+    ctx.set_rule("for each mutating workload: fault-free run, then one run per write/seek/flush call index k failing (thorough: all pairs), retrying each failed API call up to 3 times and running the rest of the workload; oracles: a fault delivered during an API call makes that call return Err; no panic or hang afterwards; whenever flush returns Ok a fresh handle reads back every byte accepted by earlier writes");
+    let mut runs = 0u64;
+    let mut calls = 0u64;
+    for v in [3u16, 4] {
+        for (name, max_buf, steps) in crate::e4::mutating_workloads() {
+            let case = crate::e4::FaultCase { workload: name.clone(), version: v, max_buf, steps, plan: vec![], kinds: vec![CallKind::Write, CallKind::Seek, CallKind::Flush], read_only: false };
+            let st = crate::e4::explore(ctx, &case, None, &[CallKind::Write, CallKind::Seek, CallKind::Flush], if thorough { crate::e4::Pairs::All } else { crate::e4::Pairs::None });
+            ctx.note(format!("v{} {}: fault positions={} runs={} underlying calls executed={} faults delivered={}", v, name, st.positions, st.runs, st.calls, st.faults_delivered));
+            runs += st.runs;
+            calls += st.calls;
+            ctx.add("fault_positions", st.positions);
+            ctx.add("faults_delivered", st.faults_delivered);
+        }
+    }
+    ctx.set("evaluations", runs);
+    ctx.set("distinct_nontrivial", runs.saturating_sub(1));
+    ctx.finish(runs, calls)
+}
+
+fn c18_histories(v: u16, depth: usize, sizes: &[usize]) -> Vec<History> {
+    let a = DataAlpha { paths: vec!["/s", "/d/t"], rewrite: sizes.to_vec(), setlen: vec![0, 70, 4096], append: vec![100], patch: vec![(1, 3)], remove: true };
+    let mut ops = data_ops(&a);
+    ops.push(Op::CreateStorage("/d".into()));
+    ops.push(Op::RemoveStorage("/d".into()));
+    ops.push(Op::SetStateBits("/d".into(), 7));
+    let mut out = Vec::new();
+    let mut level: Vec<Vec<Op>> = vec![vec![]];
+    for _ in 0..depth {
+        let mut next = Vec::new();
+        for p in &level {
+            for op in &ops {
+                let mut q = p.clone();
+                q.push(op.clone());
+                next.push(q);
+            }
+        }
+        for q in &next {
+            out.push(History { version: v, seed: "d1".into(), ops: q.clone(), reopen_after: vec![false; q.len()] });
+        }
+        level = next;
+    }
+    out
+}
+
+fn c18(tier: &str, thorough: bool) -> i32 {
+    let ctx = leak(Ctx::new("C18", tier, level_mc(), "e4", &["differs"]));
+    crate::watch::start(ctx, std::time::Duration::from_secs(60));
+    ctx.assume("storage timestamps are pinned through the public setters, so images are comparable");
+    ctx.assume("OS-level short reads are modelled by the chunking backend, not provoked on the real file");
+    ctx.set_rule("every history of a bounded set (all op sequences up to the depth over a content alphabet, plus growth seeds) is run plain, again, on a real file through cfb::create/open_rw/open, with every transfer chunked to c bytes for each c, with Interrupted on every 2nd/3rd/5th transfer, with a single 1-byte short count and a single Interrupted at every transfer index k, for each max_buffer_size and in the other format version; images must be byte-identical (logical dumps for buffer size / version)");
+    let dir = std::path::PathBuf::from(format!("/verif/target/tmp/{}", std::process::id()));
+    let _ = std::fs::create_dir_all(&dir);
+    let mut hists = Vec::new();
+    for v in [3u16, 4] {
+        let sizes: Vec<usize> = if thorough { vec![0, 1, 64, 65, 511, 513, 4095, 4096, 4097, 9000] } else { vec![0, 65, 4096, 5000] };
+        hists.extend(c18_histories(v, if thorough { 3 } else { 2 }, &sizes));
+    }
+    for (v, seed) in growth_seeds(false) {
+        hists.push(History { version: v, seed, ops: vec![Op::Rewrite("/n1".into(), 65), Op::Rewrite("/n2".into(), 4096), Op::RemoveStream("/n1".into())], reopen_after: vec![false; 3] });
+    }
+    let chunks: Vec<usize> = if thorough { vec![1, 2, 3, 7, 63, 64, 65, 511, 512, 513] } else { vec![1, 3, 64, 511] };
+    let bufs: Vec<usize> = if thorough { vec![0, 1024, 1025, 1500, 4096, 5000] } else { vec![0, 1500] };
+    // the per-index sweep is quadratic in the history length: all histories in thorough, depth-1 and seeds in quick
+    let (small, large): (Vec<History>, Vec<History>) = hists.into_iter().partition(|h| thorough || h.ops.len() <= 1 || h.seed != "d1");
+    let st1 = crate::e4::c18_explore(ctx, &small, &chunks, &bufs, true, &dir);
+    let st2 = crate::e4::c18_explore(ctx, &large, &chunks, &bufs, false, &dir);
+    let _ = std::fs::remove_dir_all(&dir);
+    ctx.note(format!("with per-index short/interrupted sweep: histories={} runs={}; without: histories={} runs={}", st1.histories, st1.runs, st2.histories, st2.runs));
+    ctx.finish(st1.histories + st2.histories, st1.runs + st2.runs)
+}
+
 pub fn replay(path: &str) -> i32 {
     let text = match std::fs::read_to_string(path) {
         Ok(t) => t,
@@ -454,6 +572,54 @@ pub fn replay(path: &str) -> i32 {
                     println!("VIOLATION-REPLAYED class={} {}", v.class, v.msg);
                 }
                 1
+            }
+        }
+        "fault" => {
+            let c: crate::e4::FaultCase = match serde_json::from_value(case["fault"].clone()) {
+                Ok(c) => c,
+                Err(e) => {
+                    eprintln!("bad fault case: {}", e);
+                    return 2;
+                }
+            };
+            let base = if c.read_only { crate::e4::readonly_base(c.version).ok() } else { None };
+            println!("replaying workload {:?} v{} with plan {:?}", c.workload, c.version, c.plan);
+            let r = crate::e4::run_case(&c, base.as_ref(), None);
+            for (i, res) in &r.results {
+                println!("  step {} {:?} -> {:?}", i, c.steps[*i], res);
+            }
+            if r.problems.is_empty() {
+                println!("no violation on replay");
+                0
+            } else {
+                for (class, msg) in &r.problems {
+                    println!("VIOLATION-REPLAYED class={} {}", class, msg);
+                }
+                1
+            }
+        }
+        "c18" => {
+            let h: History = match serde_json::from_value(case["history"].clone()) {
+                Ok(h) => h,
+                Err(e) => {
+                    eprintln!("bad history: {}", e);
+                    return 2;
+                }
+            };
+            let ctx = leak(Ctx::new("C18", "replay", level_mc(), "e4", &["differs"]));
+            let dir = std::path::PathBuf::from(format!("/verif/target/tmp/{}", std::process::id()));
+            let _ = std::fs::create_dir_all(&dir);
+            crate::e4::c18_explore(ctx, &[h], &[1, 2, 3, 7, 63, 64, 65, 511, 512, 513], &[0, 1024, 1500, 4096], true, &dir);
+            let _ = std::fs::remove_dir_all(&dir);
+            let n = ctx.violations.lock().unwrap().len();
+            for (sig, (v, _)) in ctx.violations.lock().unwrap().iter() {
+                println!("VIOLATION-REPLAYED {} {}", sig, v.msg);
+            }
+            if n > 0 {
+                1
+            } else {
+                println!("no violation on replay");
+                0
             }
         }
         "handle" => {
